@@ -395,7 +395,7 @@ pub fn accessors(i: &Bolt11Invoice) -> String {
 		Bolt11InvoiceDescriptionRef::Hash(h) => format!("hash:{}", h.0),
 	};
 	format!(
-		"cur={:?} amt={:?} ts={:?} exp={:?} expires_at={:?} ph={:?} ps={:?} desc={} payee={:?} explicit={:?} recovered={:?} meta={:?} feat={:?} cltv={} fb={:?} routes={:?} hash={:?}",
+		"cur={:?}\x1famt={:?}\x1fts={:?}\x1fexp={:?}\x1fexpires_at={:?}\x1fph={:?}\x1fps={:?}\x1fdesc={}\x1fpayee={:?}\x1fexplicit={:?}\x1frecovered={:?}\x1fmeta={:?}\x1ffeat={:?}\x1fcltv={}\x1ffb={:?}\x1froutes={:?}\x1fhash={:?}",
 		i.currency(),
 		i.amount_milli_satoshis(),
 		i.duration_since_epoch(),
@@ -423,7 +423,7 @@ pub fn content(i: &Bolt11Invoice) -> String {
 		Bolt11InvoiceDescriptionRef::Hash(h) => format!("hash:{}", h.0),
 	};
 	format!(
-		"cur={:?} amt={:?} ts={:?} exp={:?} ph={:?} ps={:?} desc={} explicit={:?} meta={:?} feat={:?} cltv={} fb={:?} routes={:?} raw={:?}",
+		"cur={:?}\x1famt={:?}\x1fts={:?}\x1fexp={:?}\x1fph={:?}\x1fps={:?}\x1fdesc={}\x1fexplicit={:?}\x1fmeta={:?}\x1ffeat={:?}\x1fcltv={}\x1ffb={:?}\x1froutes={:?}\x1fraw={:?}",
 		i.currency(),
 		i.amount_milli_satoshis(),
 		i.duration_since_epoch(),
@@ -457,14 +457,11 @@ pub fn check_roundtrip(c: &Cfg) -> Result<Result<(Bolt11Invoice, String), String
 		},
 	};
 	if parsed != inv {
-		return Err((
-			"bolt11-roundtrip-equal",
-			format!("parsed != built for {}: built {{{}}} parsed {{{}}}", s, accessors(&inv), accessors(&parsed)),
-		));
+		return Err(("bolt11-roundtrip-equal", format!("{} (string {})", crate::diff_detail(&accessors(&inv), &accessors(&parsed)), s)));
 	}
 	let (ab, ap) = (accessors(&inv), accessors(&parsed));
 	if ab != ap {
-		return Err(("bolt11-roundtrip-accessors", format!("accessors differ: built {{{}}} parsed {{{}}}", ab, ap)));
+		return Err(("bolt11-roundtrip-accessors", crate::diff_detail(&ab, &ap)));
 	}
 	if parsed.to_string() != s {
 		return Err(("bolt11-roundtrip-reencode", format!("re-encoding differs: {} vs {}", s, parsed.to_string())));
@@ -650,6 +647,7 @@ pub fn check_char_mutations(c: &Cfg, inv: &Bolt11Invoice, s: &str, st: &mut Stat
 	let sep = s.rfind('1').unwrap();
 	let bytes = s.as_bytes();
 	let mut buf = bytes.to_vec();
+	let (mut n_eval, mut n_checksum, mut n_bech32) = (0u64, 0u64, 0u64);
 	for pos in 0..bytes.len() {
 		let alphabet: &[u8] = if pos <= sep { &ALNUM[..] } else { &b32::CHARSET[..] };
 		for &ch in alphabet.iter().chain(if pos > sep { [b'B', b'1', b'b'].iter() } else { [b'Q', b'L'].iter() }) {
@@ -658,11 +656,14 @@ pub fn check_char_mutations(c: &Cfg, inv: &Bolt11Invoice, s: &str, st: &mut Stat
 			}
 			buf[pos] = ch;
 			let m = std::str::from_utf8(&buf).unwrap();
-			st.add("b11.charsub.evaluations", 1);
+			n_eval += 1;
 			match m.parse::<Bolt11Invoice>() {
+				Err(ParseOrSemanticError::ParseError(Bolt11ParseError::Bech32Error(
+					bech32::primitives::decode::CheckedHrpstringError::Checksum(_),
+				))) => n_checksum += 1,
 				Err(e) => {
 					if is_checksum_err(&e) {
-						st.add("b11.charsub.rejected_checksum_or_bech32", 1);
+						n_bech32 += 1;
 					} else {
 						st.add("b11.charsub.rejected_other", 1);
 					}
@@ -703,11 +704,32 @@ pub fn check_char_mutations(c: &Cfg, inv: &Bolt11Invoice, s: &str, st: &mut Stat
 			},
 		}
 	}
+	st.add("b11.charsub.evaluations", n_eval);
+	st.add("b11.charsub.rejected_checksum", n_checksum);
+	st.add("b11.charsub.err.parse:Bech32Error:Checksum", n_checksum);
+	st.add("b11.charsub.rejected_checksum_or_bech32", n_checksum + n_bech32);
 }
 
 /// Judges one checksum-correct mutant string `m` of the invoice `inv`.
 /// Returns the outcome class or a violation detail.
-pub fn judge_fixed_mutant(inv: &Bolt11Invoice, orig_content: &str, m: &str) -> Result<&'static str, String> {
+pub struct Orig<'a> {
+	pub inv: &'a Bolt11Invoice,
+	pub s: &'a str,
+	pub content: String,
+	pub key: PublicKey,
+	pub hash: [u8; 32],
+}
+
+impl<'a> Orig<'a> {
+	pub fn new(inv: &'a Bolt11Invoice, s: &'a str) -> Self {
+		Orig { inv, s, content: content(inv), key: inv.get_payee_pub_key(), hash: inv.signable_hash() }
+	}
+}
+
+pub fn judge_fixed_mutant(o: &Orig, m: &str) -> Result<&'static str, String> {
+	if m == o.s {
+		return Ok("identical_string");
+	}
 	match m.parse::<Bolt11Invoice>() {
 		Err(ParseOrSemanticError::SemanticError(Bolt11SemanticError::InvalidSignature)) => Ok("rejected_signature"),
 		Err(ParseOrSemanticError::SemanticError(_)) => Ok("rejected_semantic"),
@@ -715,9 +737,13 @@ pub fn judge_fixed_mutant(inv: &Bolt11Invoice, orig_content: &str, m: &str) -> R
 		Err(ParseOrSemanticError::ParseError(Bolt11ParseError::MalformedSignature(_))) => Ok("rejected_malformed_signature"),
 		Err(ParseOrSemanticError::ParseError(_)) => Ok("rejected_parse"),
 		Ok(p) => {
-			let same_key = p.get_payee_pub_key() == inv.get_payee_pub_key();
-			let same_content = content(&p) == orig_content
-				&& p.clone().into_signed_raw().raw_invoice() == inv.clone().into_signed_raw().raw_invoice();
+			let pkey = p.get_payee_pub_key();
+			let same_key = pkey == o.key;
+			// LDK signs / verifies the hash of its own re-serialisation of the parsed content, so a
+			// different hash means different content; an equal hash is confirmed field by field.
+			let same_content = p.signable_hash() == o.hash
+				&& content(&p) == o.content
+				&& p.clone().into_signed_raw().raw_invoice() == o.inv.clone().into_signed_raw().raw_invoice();
 			if same_content {
 				if same_key {
 					Ok("accepted_same_content_same_key")
@@ -725,18 +751,17 @@ pub fn judge_fixed_mutant(inv: &Bolt11Invoice, orig_content: &str, m: &str) -> R
 					Ok("accepted_same_content_other_key")
 				}
 			} else if !same_key {
-				if inv.payee_pub_key().is_some() && p.payee_pub_key().is_some() {
-					// both carry an explicit `n`: different key means the n field itself was changed
-					// to another valid key for which the signature verifies: impossible for an attacker
-					// without that key.
-					Err(format!("explicit payee key changed to {:?} and signature still verifies", p.get_payee_pub_key()))
+				if o.inv.payee_pub_key().is_some() && p.payee_pub_key().is_some() {
+					// both carry an explicit `n`: a different key means the n field itself was changed
+					// to another valid key for which the signature verifies.
+					Err(format!("explicit payee key changed to {:?} and signature still verifies", pkey))
 				} else {
 					Ok("accepted_different_key")
 				}
 			} else {
 				Err(format!(
 					"parses with the SAME payee key {:?} but different signed content: {{{}}} vs original {{{}}}",
-					p.get_payee_pub_key(), content(&p), orig_content
+					pkey, content(&p), o.content
 				))
 			}
 		},
@@ -747,7 +772,7 @@ pub fn judge_fixed_mutant(inv: &Bolt11Invoice, orig_content: &str, m: &str) -> R
 /// the checksum recomputed.
 pub fn check_symbol_mutations(c: &Cfg, inv: &Bolt11Invoice, s: &str, st: &mut Stats, out: &mut Vec<Viol>) {
 	let (hrp, data) = b32::split(s).expect("own string splits");
-	let orig_content = content(inv);
+	let orig = Orig::new(inv, s);
 	let sep = s.rfind('1').unwrap();
 	let mut d = data.clone();
 	for pos in 0..data.len() {
@@ -758,7 +783,7 @@ pub fn check_symbol_mutations(c: &Cfg, inv: &Bolt11Invoice, s: &str, st: &mut St
 			d[pos] = v;
 			let m = b32::encode(&hrp, &d);
 			st.add("b11.symfix.evaluations", 1);
-			match judge_fixed_mutant(inv, &orig_content, &m) {
+			match judge_fixed_mutant(&orig, &m) {
 				Ok(class) => st.add(&format!("b11.symfix.{}", class), 1),
 				Err(detail) => {
 					let region = region_of(s, sep + 1 + pos);
@@ -865,11 +890,11 @@ pub fn hrp_variants(hrp: &str) -> Vec<String> {
 
 pub fn check_hrp_mutations(c: &Cfg, inv: &Bolt11Invoice, s: &str, st: &mut Stats, out: &mut Vec<Viol>) {
 	let (hrp, data) = b32::split(s).expect("own string splits");
-	let orig_content = content(inv);
+	let orig = Orig::new(inv, s);
 	for h2 in hrp_variants(&hrp) {
 		let m = b32::encode(&h2, &data);
 		st.add("b11.hrpfix.evaluations", 1);
-		match judge_fixed_mutant(inv, &orig_content, &m) {
+		match judge_fixed_mutant(&orig, &m) {
 			Ok(class) => st.add(&format!("b11.hrpfix.{}", class), 1),
 			Err(detail) => out.push(Viol {
 				oracle: "bolt11-forged-hrp",
@@ -908,7 +933,7 @@ fn split_fields(data: &[u8]) -> Option<Vec<Vec<u8>>> {
 /// tagged fields, truncate the data part, change a field's declared length to every value.
 pub fn check_structural_mutations(c: &Cfg, inv: &Bolt11Invoice, s: &str, st: &mut Stats, out: &mut Vec<Viol>) {
 	let (hrp, data) = b32::split(s).expect("own string splits");
-	let orig_content = content(inv);
+	let orig = Orig::new(inv, s);
 	let fields = match split_fields(&data) {
 		Some(f) => f,
 		None => return,
@@ -958,7 +983,7 @@ pub fn check_structural_mutations(c: &Cfg, inv: &Bolt11Invoice, s: &str, st: &mu
 	for (name, d) in mutants {
 		let m = b32::encode(&hrp, &d);
 		st.add("b11.struct.evaluations", 1);
-		match judge_fixed_mutant(inv, &orig_content, &m) {
+		match judge_fixed_mutant(&orig, &m) {
 			Ok(class) => st.add(&format!("b11.struct.{}", class), 1),
 			Err(detail) => {
 				let kind = name.rsplitn(2, '-').last().unwrap_or("").to_string();
@@ -982,7 +1007,7 @@ pub fn replay_mutation(r: &Value) -> Result<String, String> {
 		Ok(Err(k)) => return Ok(format!("builder refuses the configuration now ({})", k)),
 		Err((o, d)) => return Err(format!("{}: {}", o, d)),
 	};
-	let orig_content = content(&inv);
+	let orig = Orig::new(&inv, &s);
 	let fam = r["fam"].as_str().unwrap_or("");
 	match fam {
 		"b11-charsub" | "b11-chardel" => {
@@ -1010,16 +1035,16 @@ pub fn replay_mutation(r: &Value) -> Result<String, String> {
 			}
 			data[pos] = r["val"].as_u64().ok_or("val")? as u8;
 			let m = b32::encode(&hrp, &data);
-			judge_fixed_mutant(&inv, &orig_content, &m).map(|c| c.to_string())
+			judge_fixed_mutant(&orig, &m).map(|c| c.to_string())
 		},
 		"b11-hrpfix" => {
 			let (_, data) = b32::split(&s).ok_or("split")?;
 			let m = b32::encode(r["hrp"].as_str().ok_or("hrp")?, &data);
-			judge_fixed_mutant(&inv, &orig_content, &m).map(|c| c.to_string())
+			judge_fixed_mutant(&orig, &m).map(|c| c.to_string())
 		},
 		"b11-struct" => {
 			let m = r["mutant"].as_str().ok_or("mutant")?;
-			judge_fixed_mutant(&inv, &orig_content, m).map(|c| c.to_string())
+			judge_fixed_mutant(&orig, m).map(|c| c.to_string())
 		},
 		_ => Err(format!("unknown family {}", fam)),
 	}
